@@ -239,7 +239,7 @@ Proof.
     + (* Close *) cbn [wfd_stmt] in Hs. discriminate.
   - (* CNil *) intros L D F N lp d v x st _ Hd. cbn [rcases]. apply Hd.
   - (* CCons *) intros b IHb ft r IHr L D F N lp d v x st H Hd. cbn [rcases wfd_cases] in *.
-    apply andb_true_iff in H as [H Hr]. apply andb_true_iff in H as [Hb _].
+    apply andb_true_iff in H as [Hb Hr].
     assert (Hcase : good x (match rstmts lp b [] None x with
         | (Nrm, x1) => if ft then rcases lp r d None x1 else (Nrm, x1) | q => q end) st st).
     { pose proof (IHb L D F N lp [] [] None x st Hb (Forall2_nil _)) as Ha. cbn [app] in Ha.
